@@ -176,7 +176,8 @@ P["C04"] = dict(
              "from the parameter map", "R-LOOKUP-FRESH: a search with a changing key runs on a fresh iterator "
              "(fails today: known finding)",
              "R-CHASE-CALLS: every typed extraction calls chase(globals, &locals, key) with the maps in this order",
-             "R-ARG-SELECTION: at every call of a crate function no argument is a caller variable named like another same-typed parameter of the callee (exchanged arguments of equal type, e.g. qs(e, sinphi), chase(&locals, globals, key))"],
+             "R-ARG-SELECTION: at every call of a crate function no argument is a caller variable named like another same-typed parameter of the callee (exchanged arguments of equal type, e.g. qs(e, sinphi), chase(&locals, globals, key))",
+             "R-OMIT-SCOPE: the steps of a pipeline are built from globals from which the invocation's omit_fwd/omit_inv have been removed (a macro step with `inv omit_*` is the inverse of its expansion)"],
     not_decided=["that $name, $name(d), (d) forms evaluate to the documented values", "precedence of values",
                  "equivalence of an invocation with its textual expansion", "stack frame sizes (101 levels assumed to fit)"],
     level="Decides termination of macro resolution (bounded recursion, terminating loops) as a structural proof "
@@ -264,7 +265,8 @@ P["C03"] = dict(
              "list (step modifiers cannot become modifiers of the enclosing pipeline)",
              "R-INV-HANDLED: every operator Op::op obtains from a constructor (user registered or built-in) passes through handle_op_inversion",
              "R-MODIFIER-ROTATE: the tokenizer rotates leading modifiers behind the operator name in a loop that re-tests the first element (several prefix modifiers, as produced by `<`/`>` plus inv)",
-             "R-CHASE-CALLS: omit_fwd and omit_inv are looked up independently - each look-up lies on every path to the parsed result"],
+             "R-CHASE-CALLS: omit_fwd and omit_inv are looked up independently - each look-up lies on every path to the parsed result",
+             "R-OMIT-SCOPE: the steps of a pipeline are built from globals from which the invocation's omit_fwd/omit_inv have been removed (a macro step with `inv omit_*` is the inverse of its expansion)"],
     not_decided=["</> desugaring and modifier rotation in the tokenizer", "bit-identity with stand-alone application "
                  "(follows from the shape but is not separately checked)", "omit_* leaking through globals"],
     level="Decides the interpreter's structure (order, duality, tally, modifier plumbing) on all paths; the "
